@@ -256,10 +256,6 @@ def f_shadow(F, res):
 
         def want(t, callee):
             return callee["crate"] == "tx3_lang" and not callee.get("impl_trait") and callee["file"] == f0["file"] and len(callee["blocks"]) <= 60
-        body = None
-        raw = [t for _, t in mir.calls(f0)]
-        if not any("track_" in (t.get("callee") or "") or (t.get("callee") or "").endswith("::insert") for t in raw):
-            continue
         body = mir.inline_calls(F, f0, want=want, depth=2)
         du = mir.DefUse(body)
         cfg = mir.CFG(body)
